@@ -33,7 +33,7 @@ MIN_EVALUATIONS = {"quick": 500, "thorough": 5000}
 DTYPES = ["bool", "int8", "uint8", "int16", "uint16", "int32", "uint32", "int64", "uint64", "float16", "float32", "float64"]
 INTERVALS = ["manual_none", "manual_lo", "manual_hi", "manual_both", "manual_both_int", "quantile", "quantile_wide", "centered", "centered_hr"]
 STRETCHES = ["linear", "power", "logarithmic", "asinh"]
-FAMILIES = ["uniform", "ties", "wide", "nan", "inf", "halfrange", "sparse"]
+FAMILIES = ["uniform", "ties", "wide", "nan", "inf", "halfrange", "sparse", "tiny", "huge"]
 MODES = ["data", "direct", "preset"]
 PRESETS = ["linear_auto", "quantile", "linear_minmax", "minmax", "linear_centered", "log_auto", "log_minmax", "power_squared", "power_sqrt", "asinh_centered"]
 STRETCH_CLASSES = ["LinearStretch", "PowerLawStretch", "LogarithmicStretch", "InverseLogarithmicStretch", "InverseHyperbolicSineStretch", "HyperbolicSineStretch"]
@@ -139,6 +139,12 @@ def _gen_values(rng, dt, fam):
     elif fam == "halfrange":
         top = float(fi.max) * (0.4 if dtype.itemsize == 2 else 0.01)  # float16 is promoted by the library; wider floats must not overflow their own span
         a = rng.uniform(-top, top, size=n)
+    elif fam in ("tiny", "huge") and dtype.itemsize >= 4:
+        # the whole image at 1e-8 / 1e+8 times (float32) or 1e-30 / 1e+30 times (float64) the usual scale
+        ex = {4: 8, 8: 30}[dtype.itemsize]
+        a = rng.normal(size=n) * 10.0 ** (-ex if fam == "tiny" else ex) * float(rng.uniform(0.5, 5.0))
+        if rng.random() < 0.3:
+            a[int(rng.integers(n))] = np.nan
     else:
         a = rng.normal(size=n) * 10.0 ** rng.uniform(-2, 3)
     a = a.astype(dtype)
@@ -226,6 +232,69 @@ def _stretch_in_use(ctx, norm, common):
     ctx.close(float(np.max(np.abs(a - y))), 1e-8, "stretch_in_use_of_inverse", lambda: "%s in use: max|s(s^-1(y))-y| = %.3g" % (cls, float(np.max(np.abs(a - y)))), **common)
     b = np.asarray(inv(np.asarray(s(y.copy()), dtype=np.float64).copy()), dtype=np.float64)
     ctx.close(float(np.max(np.abs(b - y))), 1e-8, "inverse_of_stretch_in_use", lambda: "%s in use: max|s^-1(s(y))-y| = %.3g" % (cls, float(np.max(np.abs(b - y)))), **common)
+
+
+def _same_out(a, b, atol=0.0):
+    ma, mb = np.ma.getmaskarray(a), np.ma.getmaskarray(b)
+    if a.shape != b.shape or not np.array_equal(ma, mb):
+        return False
+    da, db = np.ma.getdata(a)[~ma].astype(np.float64), np.ma.getdata(b)[~mb].astype(np.float64)
+    return bool(np.array_equal(da, db)) if atol == 0.0 else bool(np.all(np.abs(da - db) <= atol))
+
+
+def _forms(ctx, cn, rng, use, kw, norm, out, mode, common):
+    """Equivalent forms of the same request: the memory layout / ownership / container of the input, NumPy-scalar spellings of the
+    limits, and calls that are neutral for the result (repr, reads, copies of the normalisation object) must not change the output."""
+    import copy
+    import pickle
+
+    variants = {}
+    if use.ndim >= 2:
+        variants["fortran_order"] = np.asfortranarray(use)
+        variants["transposed_memory"] = use.T.copy().T
+    buf = np.zeros(use.shape[:-1] + (use.shape[-1] * 2,), dtype=use.dtype)
+    buf[..., ::2] = use
+    variants["strided_view"] = buf[..., ::2]
+    ro = use.copy()
+    ro.setflags(write=False)
+    variants["read_only"] = ro
+    if use.dtype in (np.float64, np.int64):
+        variants["nested_list"] = use.tolist()
+    for name, v in variants.items():
+        try:
+            o = norm(v)
+        except Exception as e:  # noqa: BLE001
+            ctx.check(False, "input_form_dependence", "%s input: %s: %s" % (name, type(e).__name__, str(e)[:200]), form=name, **common)
+            continue
+        ctx.check(_same_out(o, out), "input_form_dependence", lambda: "%s input gives another result than the C-contiguous array: %r vs %r" % (name, np.ma.getdata(o).ravel()[:4].tolist(), np.ma.getdata(out).ravel()[:4].tolist()), form=name, **common)
+    # limits spelled as NumPy scalars
+    if kw.get("interval_type") == "manual" and (kw.get("vmin") is not None or kw.get("vmax") is not None):
+        kw2 = dict(kw)
+        # (integers beyond the int64 range stay Python integers: NumPy itself refuses to mix them with fixed-width scalars)
+        small = all(abs(kw2[k]) < 2**62 for k in ("vmin", "vmax") if isinstance(kw2.get(k), int))
+        for k in ("vmin", "vmax"):
+            v = kw2.get(k)
+            if v is None:
+                continue
+            if isinstance(v, int) and not isinstance(v, bool) and small:
+                kw2[k] = np.int64(v)
+            elif isinstance(v, float):
+                kw2[k] = np.float64(v)
+        o2 = (cn.CustomNormalization(data=use, **kw2) if mode != "direct" else cn.CustomNormalization(**kw2))(use)
+        # (a NumPy float64 scalar promotes float32 data to float64 where a Python float does not: same map, other rounding)
+        ctx.check(_same_out(o2, out, atol=_tol(use.dtype)), "limit_form_dependence", lambda: "limits given as NumPy scalars (%r) give another result than Python numbers (%r)" % ({k: kw2.get(k) for k in ("vmin", "vmax")}, {k: kw.get(k) for k in ("vmin", "vmax")}), **common)
+    # neutral calls
+    repr(norm)
+    _ = (norm.vmin, norm.vmax, norm.scaled(), str(norm.interval), str(norm.stretch))
+    ctx.check(_same_out(norm(use), out), "neutral_call_dependence", "repr / attribute reads / scaled() changed the result of the next call", step="reads", **common)
+    for name, maker in (("deepcopy", lambda: copy.deepcopy(norm)), ("pickle", lambda: pickle.loads(pickle.dumps(norm)))):
+        try:
+            twin = maker()
+        except Exception:  # noqa: BLE001
+            ctx.count("norm_%s_unsupported" % name)
+            continue
+        ctx.check(_same_out(twin(use), out), "neutral_call_dependence", "a %s of the normalisation object normalises differently" % name, step=name, **common)
+        ctx.check(_same_out(norm(use), out), "neutral_call_dependence", "taking a %s changed the original object" % name, step=name + "_source", **common)
 
 
 def _quantile_bracket(ctx, use, ql, qu, vmin, vmax, common):
@@ -317,6 +386,8 @@ def _run_norm(spec, idx, ctx):
     _judge(ctx, spec, use, norm, out, "data")
     cm0 = {"dtype": str(use.dtype), "interval": spec["interval"], "stretch": spec["stretch"], "mode": mode}
     _stretch_in_use(ctx, norm, cm0)
+    if idx % 5 == 3:
+        _forms(ctx, cn, rng, use, kw, norm, out, mode, cm0)
     if kw.get("interval_type") == "quantile" and kw.get("vmin") is None and kw.get("vmax") is None:
         ql = kw.get("lower_quantile")
         qu = kw.get("upper_quantile")
